@@ -164,4 +164,31 @@ Proof.
 Qed.
 
 
+Lemma get_del_other lo k k2 (m : store V) : sorted_from lo m -> k2 <> k -> get k2 (del k m) = get k2 m.
+Proof.
+  revert lo; induction m as [|[k' v'] m IH]; simpl; intros lo Hs Hne; auto.
+  destruct Hs as [H1 H2].
+  destruct (Z.ltb_spec k' k); simpl.
+  - rewrite (IH k'); auto.
+  - destruct (Z.eqb_spec k' k); simpl; [|reflexivity].
+    subst k'. destruct (Z.ltb_spec k k2); [reflexivity|].
+    destruct (Z.eqb_spec k k2); [lia|]. eapply get_lt_none; eauto; lia.
+Qed.
+
+Definition wf (m : store V) : Prop := exists lo, sorted_from lo m.
+Lemma wf_nil : wf [].
+Proof. exists 0. exact I. Qed.
+Lemma sorted_wf (m : store V) : sorted m -> wf m.
+Proof. destruct m as [|[k v] m]; [intros; exists 0; exact I|]. simpl. intros H. exists (k - 1). simpl. split; [lia|auto]. Qed.
+Lemma wf_sorted (m : store V) : wf m -> sorted m.
+Proof. intros [lo H]. destruct m as [|[k v] m]; simpl in *; tauto. Qed.
+Lemma wf_set k v (m : store V) : wf m -> wf (set k v m).
+Proof. intros H. apply sorted_wf, set_sorted, wf_sorted, H. Qed.
+Lemma wf_del k (m : store V) : wf m -> wf (del k m).
+Proof. intros H. apply sorted_wf, del_sorted, wf_sorted, H. Qed.
+Lemma wf_get_del_same k (m : store V) : wf m -> get k (del k m) = None.
+Proof. intros [lo H]. eapply get_del_same; eauto. Qed.
+Lemma wf_get_del_other k k2 (m : store V) : wf m -> k2 <> k -> get k2 (del k m) = get k2 m.
+Proof. intros [lo H]. eapply get_del_other; eauto. Qed.
+
 End StoreProps.
